@@ -98,8 +98,18 @@ def generate(batch: str, r: Rng, idx: int, tier: str) -> Dict[str, Any]:
     scramble = {"temps": [rs.below(1 << 24) for _ in range(14)], "call_sub_level": rs.below(12), "call_depth": rs.below(12),
                 "pages": [rs.below(16) << 16 for _ in range(rs.below(4))],
                 "frames": [[rs.below(1 << 20), rs.choice([16, 24])] for _ in range(rs.below(4))], "perf": rs.below(1 << 30)}
+    # stale views of the focus addresses: before sigma is imposed, replica B's machine decodes (a debugger view, a
+    # look-ahead) other bytes at the addresses where X will be — the same instruction with its last byte changed
+    rst = r.child("stale")
+    stale = []
+    ends = starts[1:] + [len(code) - 8]
+    for st, en in zip(starts, ends):
+        if en - st >= 2 and rst.chance(2, 3):
+            v = list(code[st:en])
+            v[-1] ^= rst.range(1, 255)
+            stale.append([st, v])
     return {"kind": "hist", "exec": ex, "code": code, "starts": starts, "state": sigma, "pcode": pcode, "pstate": pstate,
-            "scramble": scramble, "psteps": r.choice([10, 40, 100]), "steps": len(starts) + 2}
+            "scramble": scramble, "psteps": r.choice([10, 40, 100]), "steps": len(starts) + 2, "stale": stale}
 
 
 # ----------------------------------------------------------------------------------------
@@ -129,6 +139,12 @@ def _exec_hist_py(scn: Dict[str, Any]) -> Dict[str, Any]:
         emu.regs.set(getattr(R, f"TEMP{i}"), v)
     emu.regs.call_sub_level = scn["scramble"]["call_sub_level"]
     emu._last_pc = scn["scramble"]["perf"] & 0xFFFFF
+    for off, variant in scn.get("stale", []):
+        bus.load(core.CODE_LO + off, variant)
+        try:
+            emu.decode_instruction(core.CODE_LO + off)
+        except Exception:
+            pass
     # impose the architectural state only: registers, flags, power state, memory
     for ad in touched:
         bus.load(ad, [0])
